@@ -83,8 +83,10 @@ pub mod prelude {
     pub use alloc::sync::{Arc, Weak};
     #[cfg(all(test, feature = "shuttle"))]
     pub use shuttle::sync::{Arc, Mutex, MutexGuard, Weak};
-    #[cfg(all(feature = "std", not(all(test, feature = "shuttle"))))]
+    #[cfg(all(feature = "std", not(all(test, feature = "shuttle")), not(vls_verif)))]
     pub use std::sync::{Mutex, MutexGuard};
+    #[cfg(all(feature = "std", not(all(test, feature = "shuttle")), vls_verif))]
+    pub use crate::verif_sync::{Mutex, MutexGuard};
 
     #[cfg(not(feature = "std"))]
     pub use crate::nostd::*;
@@ -129,6 +131,10 @@ impl Clone for Box<dyn CommitmentPointProvider> {
 #[cfg(not(feature = "std"))]
 #[allow(unused)]
 mod sync;
+
+/// Verification hook: traced mutex (only with `--cfg vls_verif`)
+#[cfg(all(feature = "std", vls_verif))]
+pub mod verif_sync;
 
 #[cfg(test)]
 mod setup_channel_tests;
